@@ -19,6 +19,12 @@ CHECKS = {
         text="Every entry of the five tables and of FK/CK is compared with the standard's formula (exhaustive over the tables, so a wrong entry is found even if no vector reaches it); Enc/Dec are compared with TLC's values for the standard example, every single-bit key and block, byte fills and pseudo-random pairs; all call sequences of depth 3 (4 thorough) over Encrypt/Decrypt x 3 blocks x aliasing on one object are replayed and each result validated by TLC; key lengths 0..64.",
         note="Trusts TLC + Bitwise, the GM/T 0002 example anchoring SM4.tla, and that VerifTables returns the arrays cryptBlock reads. Correctness for all 2^256 (key, block) pairs follows only insofar as the round structure is the standard's and the tables are right; it is decided on the enumerated vectors.",
         ref="DESIGN.md section 5 C05"),
+    "C07": dict(
+        level="model_checking",
+        technique="TLA+ spec Record (authenticated channel + bounded active adversary) model-checked by TLC; every canonical adversary schedule TLC generates is executed by a record-level man in the middle between real established GMSSL connections; record-layer hooks traced from the real code are validated by TLC (HalfConnTrace: sequence numbers, nonces/IVs, sticky error)",
+        text="TLC proves Prefix/SeqByOne/Sticky for the channel model with a free adversary (3-4 records, 3 actions) and enumerates all canonical schedules of <=2 actions with concrete instances (header field rewrites incl. type->alert/CCS on alert-like payloads, IV/body/MAC byte flips, truncation/extension, drop, dup, swap, forged / other-direction / other-connection records); each runs against both GMSSL suites and both directions: what Read returned must be exactly the predicted prefix and the first affected record must end the connection with a fatal error; single-bit flips over a whole record; every encrypt/decrypt/CCS/error of every run is validated by the half-connection trace spec.",
+        note="Trusts TLC, the interposer and the hooks (emitted under the half-connection lock). CBC padding-length catalogue (0..255) is not covered: the sender always pads minimally. Schedules beyond 2 actions and records beyond 3 are covered by the model only.",
+        ref="DESIGN.md section 5 C07"),
     "C11": dict(
         level="model_checking",
         technique="executable TLA+ definitions of PKCS#7 + ECB/CBC/CFB/OFB over SM4.tla evaluated by TLC as oracle (ModesTab); helpers' package-level IV modelled as state (Modes.tla) with TLC-simulated SetIV/encrypt/decrypt behaviours replayed and validated by TLC (ModesTrace); caller-memory canaries",
